@@ -887,21 +887,8 @@ fn common_devs<C: GenericConfig<D, F = F>>(
             };
             let v = fl.verify(&op, &ch, &fl.caps, &p);
             if class == "commit_phase_merkle_caps" && e == ShapeEdit::DupLast {
-                // A surplus trailing cap is never indexed by the verifier; with fixed challenges it is unread
-                // (like pow_witness). It is bound through the transcript: one beta is drawn per cap.
-                st.label(&format!("e_exempt:surplus_commit_cap_{}", v.short()));
-                let c2 = fl.challenges(&op, &p);
-                let margin = params.lde_bits() * params.config.num_query_rounds + pow_bits as usize;
-                let v2 = fl.verify(&op, &c2, &fl.caps, &p);
-                if margin >= 40 {
-                    st.label("surplus_commit_cap_recomputed_challenges");
-                    if v2.accepted() {
-                        return Err(format!("FRI proof with a surplus commit-phase cap ACCEPTED with recomputed challenges [{}]", fl.describe()));
-                    }
-                } else {
-                    st.label(&format!("surplus_commit_cap_recomputed_low_margin_{}", v2.short()));
-                }
-                continue;
+                // a surplus trailing cap is never indexed by the verifier: only shape validation can reject it
+                st.label("shape:surplus_commit_cap");
             }
             st.label(&format!("shape:{}", if class.is_empty() { "root" } else { class.as_str() }));
             if nontrivial {
